@@ -9,7 +9,6 @@ import (
 	"sort"
 	"strings"
 	"sync"
-	"time"
 )
 
 // Violation is one property violation found by a check. Class is a short canonical
@@ -225,6 +224,9 @@ func finish(rc *RunCtx, rep *Report) int {
 	if len(knownSeen) > 0 {
 		cov["known_findings_reproduced"] = knownSeen
 	}
+	if rep.Assumptions == nil {
+		rep.Assumptions = []string{}
+	}
 	ev := map[string]interface{}{
 		"property_id": rc.ID,
 		"tier":        rc.Tier,
@@ -232,7 +234,7 @@ func finish(rc *RunCtx, rep *Report) int {
 		"level":       rep.Level,
 		"coverage":    cov,
 		"assumptions": rep.Assumptions,
-		"wall_s":      time.Since(rc.Start).Seconds(),
+		"wall_s":      realNow().Sub(rc.Start).Seconds(),
 		"violations":  newViolations,
 	}
 	if rc.Replay == "" {
@@ -244,7 +246,7 @@ func finish(rc *RunCtx, rep *Report) int {
 		}
 	}
 	summary, _ := json.Marshal(map[string]interface{}{"coverage_keys": len(cov), "exhaustive": rep.Exhaustive, "violations": newViolations, "known": len(knownSeen)})
-	fmt.Printf("RESULT property=%s tier=%s %s wall=%.1fs\n", rc.ID, rc.Tier, summary, time.Since(rc.Start).Seconds())
+	fmt.Printf("RESULT property=%s tier=%s %s wall=%.1fs\n", rc.ID, rc.Tier, summary, realNow().Sub(rc.Start).Seconds())
 	return exit
 }
 
